@@ -474,6 +474,38 @@ def handleOne : Handler := fun op inp impl =>
     { agree := got == want && !fb.any (·.startsWith "other:"), holds := got == want, nontrivial := want,
       model := toJson want,
       why := if got == want then "" else s!"HTTP trailers outside gRPC: content-type {ct}, flagged={got}, expected={want}" }
+  | "tonly" =>
+    let ct := str (field inp "ct")
+    let hs := hdrsOf (field inp "headers")
+    let real := hdrsOf (field inp "real")
+    let tr : Hdrs := announcedOnly ((strList (field inp "announced")).map unhex) ++ real
+    let bodyData := bool (field inp "bodyData")
+    let traceErr := bool (field inp "traceErr")
+    let fb := strList (field impl "fb")
+    let st := fb.filter (·.startsWith "st:")
+    let decH := decOf (field impl "oracleH")
+    let decT := decOf (field impl "oracleT")
+    let src := statusSource ct traceErr bodyData tr
+    let m : List StFb := match src with
+      | .headers => checkGRPCStatus decH hs
+      | .trailers => checkGRPCStatus decT real
+      | .none => []
+    let wantT := httpTrailersFeedback ct tr.length
+    let gotT := fb.contains "wire:http-trailers"
+    let others := fb.filter (fun f => !(f.startsWith "st:") && f != "wire:http-trailers")
+    -- the property's side: a gRPC / gRPC-Web response without body message and without a trailer
+    -- that HAS A VALUE carries its status in the headers: silent iff that status is well-formed,
+    -- every malformation of it reported (announced names are not trailers)
+    let isGrpc := "application/grpc".toList.isPrefixOf ct.toList
+    let specTrailersOnly := isGrpc && !traceErr && !bodyData && real.all (fun kv => kv.2.isEmpty)
+    let known := st.filterMap stOf
+    let holds := !specTrailersOnly || (known.length == st.length && statusHolds decH hs known)
+    { agree := m.map StFb.cls == st && gotT == wantT && others.isEmpty && bool (field impl "ok"), holds := holds,
+      nontrivial := specTrailersOnly && !(strList (field inp "announced")).isEmpty,
+      model := toJson (m.map StFb.cls),
+      cls := (if specTrailersOnly then "trailers-only" else "other") ++ (if (strList (field inp "announced")).isEmpty then "" else "/announcing"),
+      why := if holds then (if m.map StFb.cls == st then "" else s!"status feedback {st}, model {m.map StFb.cls} (source {reprStr src})") else
+        s!"Trailers-Only {ct} response (status in the HTTP headers, no body message, no trailer sent) announcing trailer names {(strList (field inp "announced")).map (fun n => (String.fromUTF8? ⟨(unhex n).toArray⟩).getD n)}: the status in the headers is well-formed={statusOK decH hs}, must flag {reprStr (mustFlagStatus decH hs)}, feedback {st}" }
   | _ => bad ("C13: unknown op " ++ op)
 
 /-! ### histories of calls (c13seq.go) -/
